@@ -96,7 +96,9 @@ func genC06(t *rapid.T) c06Case {
 		sp := drawProgs(t, 1, 3, []OpWeights{w}, hs, c.Cfg.Exact)[0]
 		for i := range sp.Ops {
 			for j := range sp.Ops[i].Txs {
-				sp.Ops[i].Txs[j].Refs[0].Name = Str(fmt.Sprintf("refs/u/survivor/t%d.%d", i, j))
+				if len(sp.Ops[i].Txs[j].Refs) > 0 {
+					sp.Ops[i].Txs[j].Refs[0].Name = Str(fmt.Sprintf("refs/u/survivor/t%d.%d", i, j))
+				}
 			}
 		}
 		if early {
